@@ -152,6 +152,10 @@ class Contract(Unit):
 
 # --------------------------------------------------------------------------- driver
 
+class UnitTimeout(BaseException):
+    pass
+
+
 def _goal_text(ob, limit=400):
     s = ob.goal.sexpr().replace("\n", " ")
     return s if len(s) <= limit else s[:limit] + "..."
@@ -177,6 +181,48 @@ def run_unit(unit, cfg, tier="quick", timeout_ms=None, known=None):
     stack = [[]]
     notes, trusted, inlined, applied = [], set(), set(), set()
     budget = getattr(unit, "path_budget", 3000)
+    try:
+        _explore(unit, cfg, fn, out, stack, budget, timeout_ms, known, notes, trusted, inlined, applied)
+    except UnitTimeout:
+        set_ctx(None)
+        out["unsupported"] = "unit wall-clock budget exceeded (undecided)"
+    out["notes"] = notes
+    out["trusted"] = sorted(trusted)
+    out["inlined"] = sorted(inlined)
+    out["contract_applied"] = sorted(applied)
+    out["wall_s"] = round(time.time() - t0, 3)
+    if (out["unsupported"] or any(o["verdict"] == "unknown" for o in out["obligations"])) and not out["crash"]:
+        _bounded_fallback(unit, cfg, tier, out)
+    return out
+
+
+def _bounded_fallback(unit, cfg, tier, out):
+    """the unit is undecided: run its bounded native stand-in (never counted as proved)"""
+    gen = getattr(unit, "bounded_models", None)
+    if gen is None:
+        return
+    t0 = time.time()
+    cases = 0
+    bad = []
+    try:
+        for m in gen(cfg, tier):
+            cases += 1
+            rp = unit.replay(m, cfg, "bounded")
+            if rp and rp.get("reproduced"):
+                bad.append({"model": m, "replay": rp})
+                if len(bad) >= 3:
+                    break
+            if time.time() - t0 > 120:
+                break
+    except UnitTimeout:
+        raise
+    except Exception:
+        out["bounded_fallback"] = {"cases": cases, "error": traceback.format_exc()[-800:]}
+        return
+    out["bounded_fallback"] = {"cases": cases, "violations": bad, "bound": getattr(unit, "bounded_bound", "small scope, see contract")}
+
+
+def _explore(unit, cfg, fn, out, stack, budget, timeout_ms, known, notes, trusted, inlined, applied):
     while stack:
         prefix = stack.pop()
         out["paths"] += 1
@@ -227,10 +273,10 @@ def run_unit(unit, cfg, tier="quick", timeout_ms=None, known=None):
         for n in c.notes:
             if n not in notes:
                 notes.append(n)
-        trusted |= c.trusted
+        trusted.update(c.trusted)
         if interp is not None:
-            inlined |= interp.inlined
-            applied |= interp.contract_applied
+            inlined.update(interp.inlined)
+            applied.update(interp.contract_applied)
         # vacuity: the completed path must be reachable (assumptions not contradictory)
         if completed:
             out["vacuity"]["paths_checked"] += 1
@@ -255,12 +301,6 @@ def run_unit(unit, cfg, tier="quick", timeout_ms=None, known=None):
             out["obligations"].append(r)
         if out["unsupported"] or out["crash"]:
             break
-    out["notes"] = notes
-    out["trusted"] = sorted(trusted)
-    out["inlined"] = sorted(inlined)
-    out["contract_applied"] = sorted(applied)
-    out["wall_s"] = round(time.time() - t0, 3)
-    return out
 
 
 def _pc_without_goals(c):
